@@ -102,15 +102,15 @@ pub(crate) mod verif_client {
             if $valid {
                 assert!(calls == $calls_before + 1, "[C03] quiet send of a valid value hands the sink exactly one string");
                 if $s == 0 {
-                    assert!(errs == $errs_before, "[C03] the error handler is never invoked on success");
+                    assert!(errs == $errs_before, "[C03,C17] the error handler is never invoked on success");
                 } else {
-                    assert!(errs == $errs_before + 1, "[C03] the error handler is invoked exactly once when the sink refuses");
+                    assert!(errs == $errs_before + 1, "[C03,C17] the error handler is invoked exactly once when the sink refuses");
                     assert!(ERR_KIND.load(Ordering::SeqCst) == 1 && ERR_IO.load(Ordering::SeqCst) == io_kind_index(io_kind($s - 1)),
-                        "[C03] the handler receives the I/O-kind error carrying the sink's own error");
+                        "[C03,C17] the handler receives the I/O-kind error carrying the sink's own error");
                 }
             } else {
                 assert!(calls == $calls_before, "[C02,C03] quiet send of a rejected value hands the sink nothing");
-                assert!(errs == $errs_before + 1 && ERR_KIND.load(Ordering::SeqCst) == 0, "[C03] the handler is invoked exactly once with the invalid-input error");
+                assert!(errs == $errs_before + 1 && ERR_KIND.load(Ordering::SeqCst) == 0, "[C03,C17] the handler is invoked exactly once with the invalid-input error");
             }
         }};
     }
@@ -177,7 +177,7 @@ pub(crate) mod verif_client {
     fn vec_or_empty<T>(x: T) -> (Vec<T>, bool) { if kani::any() { (vec1(x), true) } else { (Vec::new(), false) } }
 
     //@H name=c03_count_i64_try props=C01,C03,C20 fn=Counted<i64>::count,count_with_tags+try_send :: count(i64): one emit, truthful result (two consecutive calls, independent sink outcomes)
-    //@H name=c03_count_i64_send props=C03,C20 fn=Counted<i64>::count_with_tags+send :: count(i64) quiet form: handler exactly once iff failure
+    //@H name=c03_count_i64_send props=C03,C20,C17 fn=Counted<i64>::count_with_tags+send :: count(i64) quiet form: handler exactly once iff failure
     entry!(c03_count_i64_try, c03_count_i64_send, count, count_with_tags, (kani::any::<i64>(), true), true);
     //@H name=c03_count_i32_try props=C01,C03,C20 tier=thorough fn=Counted<i32> :: count(i32): one emit, truthful result
     //@H name=c03_count_i32_send props=C03,C20 tier=thorough fn=Counted<i32> :: count(i32) quiet form
@@ -192,7 +192,7 @@ pub(crate) mod verif_client {
     //@H name=c03_time_u64_send props=C03,C20 tier=thorough fn=Timed<u64> :: time(u64) quiet form
     entry!(c03_time_u64_try, c03_time_u64_send, time, time_with_tags, (kani::any::<u64>(), true), true);
     //@H name=c03_time_duration_try props=C01,C02,C03,C20 fn=Timed<Duration> :: time(Duration): one emit when the value fits, none and InvalidInput when it does not
-    //@H name=c03_time_duration_send props=C02,C03,C20 fn=Timed<Duration> :: time(Duration) quiet form: handler gets InvalidInput for an overflowing Duration, nothing is sent
+    //@H name=c03_time_duration_send props=C02,C03,C20,C17 fn=Timed<Duration> :: time(Duration) quiet form: handler gets InvalidInput for an overflowing Duration, nothing is sent
     entry!(c03_time_duration_try, c03_time_duration_send, time, time_with_tags, dur_ms_exact(), true);
     //@H name=c03_time_vec_u64_try props=C01,C03,C20 tier=thorough fn=Timed<Vec<u64>> :: time(Vec<u64>): one emit; the empty list is rejected and nothing is sent
     //@H name=c03_time_vec_u64_send props=C03,C20 tier=thorough fn=Timed<Vec<u64>> :: time(Vec<u64>) quiet form
